@@ -831,8 +831,12 @@ func (s *e20Suite) opRegisterCoin(force bool) {
 			free = append(free, d)
 		}
 	}
+	if len(free) == 0 && !force && r.Intn(3) != 0 {
+		s.opToggle()
+		return
+	}
 	switch {
-	case len(free) > 0 && (force || r.Intn(3) != 0):
+	case len(free) > 0 && (force || r.Intn(4) != 0):
 		base = free[r.Intn(len(free))]
 	default:
 		switch r.Intn(8) {
@@ -878,13 +882,17 @@ func (s *e20Suite) opRegisterERC20(force bool) {
 	}
 	var free []common.Address
 	for _, t := range s.tokens {
-		if !reg[t] && s.tok.HasCode(s.w.Ctx, t) {
+		if !reg[t] && s.tok.HasCode(s.w.Ctx, t) && (!s.tok.HasBadMeta(s.w.Ctx, t) || r.Intn(6) == 0) {
 			free = append(free, t)
 		}
 	}
 	var c common.Address
+	if len(free) == 0 && !force && r.Intn(8) != 0 {
+		s.opDeploy()
+		return
+	}
 	switch {
-	case len(free) > 0 && (force || r.Intn(3) != 0):
+	case len(free) > 0 && (force || r.Intn(4) != 0):
 		c = free[r.Intn(len(free))]
 	default:
 		switch r.Intn(5) {
@@ -1299,8 +1307,18 @@ func (s *e20Suite) opSelfdestruct() {
 func (s *e20Suite) opDeploy() {
 	r := s.r
 	c := s.tokens[r.Intn(nTokens)]
-	for i := 0; i < 6 && s.tok.HasCode(s.w.Ctx, c) && r.Intn(8) != 0; i++ {
-		c = s.tokens[r.Intn(nTokens)]
+	var empty []common.Address
+	for _, t := range s.tokens {
+		if !s.tok.HasCode(s.w.Ctx, t) {
+			empty = append(empty, t)
+		}
+	}
+	if len(empty) == 0 && r.Intn(4) != 0 {
+		s.opTx()
+		return
+	}
+	if len(empty) > 0 && r.Intn(6) != 0 {
+		c = empty[r.Intn(len(empty))]
 	}
 	dep := s.user()
 	sup := s.amountUpTo(pow10(12))
